@@ -36,6 +36,8 @@ type Check struct {
 	// branch), as a free run (fake clock only).
 	AltBody func(r *Run)
 	AltPct  int
+	// AltSched: run AltBody under the cooperative scheduler (like Body) instead of free
+	AltSched bool
 	// Body executes one simulated run. All choices come from r.
 	Body func(r *Run)
 	// Liveness: a stuck run is a violation of this property (otherwise it is
@@ -468,7 +470,7 @@ func Exec(t *testing.T, c *Check, seed uint64, tier string, sc *Scenario) *Resul
 	freeRun := c.FreeRun
 	theBody := c.Body
 	if c.AltBody != nil && r.tape.Intn("gen", 100) < int(envInt("VERIF_ALT_PCT", int64(c.AltPct))) {
-		freeRun, theBody = true, c.AltBody
+		freeRun, theBody = !c.AltSched, c.AltBody
 	}
 	body := func() {
 		defer r.recoverTask()
